@@ -179,6 +179,8 @@ func vfH_C11_MaxSize() {
 	refused2 := vfExpectPanic(func() { b.SliceAllocate(n2) })
 	vfAssert(b.LenWithPadding() <= limit, "C11.maxsize-respected")
 	vfAssert(refused2 == (before+8+n2 > limit), "C11.maxsize-refuses-exactly-beyond-limit")
+	vfAssert(vfImplies(refused2, b.LenWithPadding() == before), "C11.maxsize-refusal-leaves-buffer-unchanged")
+	vfAssert(vfImplies(refused, before == 8), "C11.maxsize-refusal-leaves-buffer-unchanged")
 	vfReach("end")
 }
 
@@ -224,3 +226,23 @@ func vfH_C11_Sort() {
 }
 
 func vfConcreteBool(b bool) bool { return b }
+
+
+// vfH_C11_Grow: Grow(n) from an arbitrary buffer state, for every n up to 2^32 (in particular
+// larger than the 1 GiB growth step): afterwards the capacity suffices for offset+n and the
+// backing slice has exactly that capacity. (Contents are not tracked here: lengths only.)
+func vfH_C11_Grow() {
+	vfSet("loop", 8)
+	vfSet("bulk-copy-havoc", 1)
+	cur, off, n := vfInt("cur"), vfInt("off"), vfInt("n")
+	vfAssume(cur >= 64 && cur <= 1<<32 && off >= 8 && off <= cur && n >= 0 && n <= 1<<32)
+	b := &Buffer{buf: make([]byte, cur), bufType: UseCalloc, curSz: cur, offset: uint64(off), padding: 8, tag: "vf"}
+	vfBegin()
+	b.Grow(n)
+	vfAssert(off+n <= b.curSz, "C11.grow-makes-room")
+	vfAssert(len(b.buf) == b.curSz, "C11.grow-capacity-is-backing-length")
+	vfAssert(int(b.offset) == off, "C11.grow-keeps-offset")
+	out := b.Allocate(n)
+	vfAssert(len(out) == n, "C11.allocate-length")
+	vfReach("end")
+}
